@@ -170,6 +170,17 @@ def handle (cmd : String) (args : List Sexp) : Option Sexp :=
       let kind := match p.kind with | .p2pk => "p2pk" | .htlc => "htlc" | .anyone => "anyone"
       some (.list [.atom "secret", .atom kind, .str p.nonce, .str p.data, .list (p.tags.map ofStrs)])
     | none => some (.atom "plain")
+  | "spend.serialize-secret", [.atom kind, n, d, tg] => do
+    let k ← match kind with | "p2pk" => some Kind.p2pk | "htlc" => some Kind.htlc | "anyone" => some Kind.anyone | _ => none
+    let row? : Sexp → Option (Option (List String)) := fun r =>
+      match r with
+      | .atom "nil" => some none
+      | r => (strs? r).map some
+    let tags ← match tg with
+      | .atom "nil" => some none
+      | .list rows => (rows.mapM row?).map some
+      | _ => none
+    some (.str (Nut10Parse.serializeSecret k (← n.asStr?) (← d.asStr?) tags))
   | "spend.parse-witness", [.atom kind, s] => do
     let w := Nut10Parse.parseWitness (kind == "htlc") (← s.asStr?)
     some (.list [.atom "w", Sexp.ofBool w.jsonOk, ofStrs w.signatures, .str w.preimage])
